@@ -512,4 +512,6 @@ def run(ck: Checker) -> None:
     ck.guard("R-TAG-FIRST", lambda: r_tag_first(ck))
     ck.guard("R-SORTED-OVERRIDE", lambda: r_overrides(ck))
     ck.guard("R-DEFAULT-TAG", lambda: r_default_tag(ck))
+    from . import state_rules as S
+    ck.guard("R-OPT-OWN", lambda: S.r_class_attr_cache(ck, "R-OPT-OWN", ("pyoak.node", "pyoak.serialize", "pyoak.origin")))
     ck.require_count("R-OPT-PAIR", 4)
